@@ -34,6 +34,12 @@ theorem af_length_matches (a : PacketAdaptationField) (h1 : a.isOneByteStuffing 
     (hs : 0 ≤ a.stuffingLength) :
     ((afBytes a).length : Int) = 1 + afSize a := C04.afBytes_length a h1 hp hs
 
+/-- … for ANY adaptation field that is not the one-byte form: the hypotheses of `af_length_matches` on
+TransportPrivateDataLength and StuffingLength are not needed (the writer derives the private-data length byte from the
+data; a negative StuffingLength counts, and is written, as 0 bytes) -/
+theorem af_length_matches_any (a : PacketAdaptationField) (h1 : a.isOneByteStuffing = false) :
+    ((afBytes a).length : Int) = 1 + afSize a := C04.afBytes_length_any a h1
+
 /-- the one-byte adaptation field (adaptation_field_length = 0) is written as the single byte 0 -/
 theorem one_byte_af (a : PacketAdaptationField) (h : a.isOneByteStuffing = true) : afBytes a = [0] := by
   simp [afBytes, h]
@@ -236,9 +242,10 @@ theorem af_eq_spec (a : PacketAdaptationField) (h1 : a.isOneByteStuffing = false
     afBytes a = Spec.afEncode a := (af_eq a h1 h hsm).symm
 
 /-- **W1** (exact predicate): on every packet satisfying `SpecEq.TSAgree` — announced parts present, delivered
-`length`, non-negative `int64` values, TransportPrivateDataLength = length of the data, exactly 188 bytes —
+`length`, non-negative `int64` values, exactly 188 bytes —
 `writePacket` succeeds and emits exactly the reference encoding.  No upper bound on any field is needed: both sides mask
-an over-wide value to its field width in the same way. -/
+an over-wide value to its field width in the same way; nothing is asked of the redundant field
+TransportPrivateDataLength, which neither side reads. -/
 theorem writePacket_eq_tsEncode (p : Packet) (h : TSAgree p) : writePacket p 188 = .ok (Spec.tsEncode p) :=
   writePacket_eq_spec p h
 
@@ -296,12 +303,20 @@ def exNegPCR : Packet :=
   { adaptationField := some { length := 183, stuffingLength := 176, pcr := some { base := -1, extension := -1 }, hasPCR := true }, header := hdrAFOnly, payload := [] }
 example : differs (writePacket exNegPCR 188) (Spec.tsEncode exNegPCR) = true := by decide +kernel
 
-/-- excluded point 3: TransportPrivateDataLength ≠ length of the data: the writer trusts the length FIELD (writes 0 and no
-data, while `calcPacketAdaptationFieldLength` counted `len(TransportPrivateData)`, so the packet is completed with 0xff
-after the adaptation field), the reference writes the data -/
+/-- formerly excluded point 3, NO LONGER excluded: TransportPrivateDataLength ≠ length of the data.  The writer used to
+trust the length FIELD (wrote 0 and no data, while `calcPacketAdaptationFieldLength` counted `len(TransportPrivateData)`,
+so the packet was completed with 0xff after the adaptation field).  The fixed writer derives the length byte from the
+data, as the reference does: the packet satisfies `TSAgree` and both sides emit length byte 3 followed by the data. -/
 def exPrivLen : Packet :=
   { adaptationField := some { length := 183, stuffingLength := 178, transportPrivateData := [1, 2, 3], transportPrivateDataLength := 0, hasTransportPrivateData := true }, header := hdrAFOnly, payload := [] }
-example : differs (writePacket exPrivLen 188) (Spec.tsEncode exPrivLen) = true := by decide +kernel
+theorem exPrivLen_agree : TSAgree exPrivLen :=
+  ⟨fun _ => ⟨_, rfl, by decide, fun h => absurd h (by decide), fun _ =>
+      ⟨by decide +kernel, fun h => absurd h (by decide), fun h => absurd h (by decide), fun h => absurd h (by decide),
+        fun h => absurd h (by decide)⟩⟩,
+    by decide +kernel, fun _ => rfl⟩
+example : writePacket exPrivLen 188 = .ok (Spec.tsEncode exPrivLen) := writePacket_eq_tsEncode exPrivLen exPrivLen_agree
+example : differs (writePacket exPrivLen 188) (Spec.tsEncode exPrivLen) = false := by decide +kernel
+example : (Spec.tsEncode exPrivLen).take 10 = [0x47, 0x01, 0x00, 0x23, 183, 0x02, 3, 1, 2, 3] := by decide +kernel
 
 /-- excluded point 4: fewer than 188 bytes: the writer pads with 0xff AFTER the payload, the reference does not pad -/
 def exShort : Packet :=
